@@ -373,16 +373,15 @@ inductive Adv where
 /-- advance through the remaining locations until the vertex fits (`cur` = current location,
 the list = the locations not yet visited) -/
 def advance (m : Machine) (d : Res) : Chip → List Chip → Adv
-  | cur, locs =>
+  | cur, [] =>
+    match m.get cur with
+    | none => .fail .indexError
+    | some free => if over (sub free d) then .exhausted else .found cur [] (sub free d)
+  | cur, c :: rest =>
     match m.get cur with
     | none => .fail .indexError
     | some free =>
-      let r := sub free d
-      if over r then
-        match locs with
-        | [] => .exhausted
-        | c :: rest => advance m d c rest
-      else .found cur locs r
+      if over (sub free d) then advance m d c rest else .found cur (c :: rest) (sub free d)
 
 /-- `_initial_placement`: `locs` = the shuffled `list(machine)` *after* the current location,
 `cur` the current location -/
